@@ -24,7 +24,11 @@ def cases(draw, tier="quick"):
     if mode == "glob":
         # (-keeptime / -nohardlinks come before the first -type on the line)
         case["glob"] = dict(prefix=draw(st.sampled_from([b"", b"/pre"])), mode=None, uid=None, gid=None,
-                            types=draw(st.sampled_from([None, None, ["f", "d", "l"], ["d", "f", "l", "p", "s", "c", "b"]])))
+                            types=draw(st.sampled_from([None, None, ["f", "d", "l"], ["d", "f", "l", "p", "s", "c", "b"], ["d", "f"], ["f"], ["d", "l"]])))
+        # filters that let some names of a multiply-linked file through and not others, or drop a directory whose contents match
+        flt = draw(st.sampled_from([None, None, "name", "path"]))
+        if flt:
+            case["glob"][flt] = draw(st.sampled_from([b"*a*", b"*e*", b"*1*", b"?", b"??*", b"[a-m]*", b"*[0-9]"]))
     # one directory pretends to be a mount point (another st_dev at and below it): with -o / -xdev the result must still not
     # depend on where in its parent's listing it shows up
     dl = [n["path"] for n in nodes if n["type"] == "dir" and b"\n" not in n["path"]]
